@@ -5,6 +5,22 @@
 //!   `B <cfg;cfg;...> | <customs> | <send> <send> ...`
 //!                                         IpTransports::bind over loopback sockets +
 //!                                         TransportsSender::poll_send for every send
+//!   `O <cfgs> | <customs> | <relays> | <inbox> | <gets> | <osend> <osend> ...`
+//!                                         the real outer `Sender` (the `noq::UdpSender`) over a bare
+//!                                         `Socket`: real mapped-address maps filled by `gets`, real
+//!                                         loopback sockets, relay senders / RemoteStateActor inboxes
+//!                                         that are channels, recording custom senders; one real
+//!                                         `poll_send` per osend.  `Q ...`: same, printed as `IOuter`
+//!                                         (first osend only, hand-off only).
+//! relays  = `-` | `<0 room|1 closed|2 full>,...`
+//! inbox   = `-` | `<endpoint key>:<0 room|1 closed|2 full>,...`   (distinct keys)
+//! gets    = `-` | `<e|r|c><key>,...`      map.get(key) calls made before the sends
+//! osend   = `<closed 0|1>/<odst>/<osrc>`
+//! odst    = `m<e|r|c><key>:<port>:<scope>`  the synthetic address of the key (if it was got, else
+//!                                           treated as `u` with host part = key)
+//!         | `u<e|r|c><host hex>:<port>:<scope>`  synthetic address of that subnet with that host part
+//!         | `4:<hex>:<port>` | `6:<hex>:<port>:<scope>`
+//! osrc    = `-` | `4:<hex>` | `6:<hex>` | `mc<key>` | `uc<host hex>`
 //! cfg     = `<4|6>:<addr hex>:<prefix>:<scope>:<default 0|1>:<required 0|1>`
 //! src     = `-` | `4:<hex>` | `6:<hex>`
 //! dst     = `4:<hex>` | `6:<hex>:<scope>`
@@ -330,7 +346,357 @@ fn gen_bind(rng: &mut Rng) -> String {
 }
 
 fn generate(rng: &mut Rng, i: u64, _n: u64) -> String {
-    if i % 3 == 0 { gen_bind(rng) } else { gen_valid(rng) }
+    match i % 6 {
+        0 | 3 => gen_bind(rng),
+        1 => gen_outer(rng),
+        _ => gen_valid(rng),
+    }
+}
+
+
+// ---------------------------------------------------------------- outer sender (O / Q cases)
+const KINDS: [char; 3] = ['e', 'r', 'c'];
+
+fn gen_outer(rng: &mut Rng) -> String {
+    // sockets, customs: the `B` generator's (first two fields of its raw case)
+    let b = gen_bind(rng);
+    let parts: Vec<&str> = b[2..].split('|').map(|s| s.trim()).collect();
+    let (cfgs_raw, customs_raw) = (parts[0].to_string(), parts[1].to_string());
+    let cfgs: Vec<Cfg> = if cfgs_raw == "-" { vec![] } else { cfgs_raw.split(';').map(cfg_parse).collect() };
+    let relays: Vec<u8> = (0..rng.below(3)).map(|_| *rng.pick(&[0u8, 0, 0, 1, 2])).collect();
+    let mut inbox: Vec<(u64, u8)> = Vec::new();
+    for k in 0..6u64 {
+        if rng.chance(2, 3) {
+            inbox.push((k, *rng.pick(&[0u8, 0, 0, 0, 1, 2])));
+        }
+    }
+    // keys 0..5 are candidates for get; 6.. are never got
+    let mut gets: Vec<(char, u64)> = Vec::new();
+    for _ in 0..rng.below(10) {
+        gets.push((*rng.pick(&KINDS), rng.below(6)));
+    }
+    let mut sends = Vec::new();
+    for _ in 0..rng.range(3, 10) {
+        let closed = rng.chance(1, 10);
+        let port = *rng.pick(&[12345u16, 12345, 12345, 0, 7, 65535]);
+        let scope = *rng.pick(&[0u32, 0, 0, 1, 77]);
+        let dst = match rng.below(16) {
+            0..=5 => {
+                // the synthetic address of a key that (probably) was got
+                let (k, key) = if !gets.is_empty() && rng.chance(4, 5) { *rng.pick(&gets) } else { (*rng.pick(&KINDS), rng.below(8)) };
+                format!("m{k}{key}:{port}:{scope}")
+            }
+            6 | 7 => format!("u{}{:x}:{port}:{scope}", rng.pick(&KINDS), rng.next_u64()),
+            8 => {
+                // IPv4-mapped IPv6 loopback
+                format!("6:{:x}:{port}:{scope}", 0xffff_0000_0000u128 | lo4(rng) as u128)
+            }
+            9 | 10 => {
+                let a: u128 = match rng.below(5) {
+                    0 => 1,
+                    1 => 2,
+                    2 => 0xfe80u128 << 112 | 1,
+                    3 => 0xfebfu128 << 112 | 9,
+                    _ => 0xfe80u128 << 112 | rng.below(3) as u128,
+                };
+                format!("6:{a:x}:{port}:{}", rng.pick(&[0u32, 1, 1, 77]))
+            }
+            11 => {
+                // near the synthetic prefix but not in any of the three subnets
+                let a: u128 = *rng.pick(&[
+                    0xfd15_070a_510b_0002u128 << 64 | 5,
+                    0xfd15_070a_510b_0004u128 << 64 | 5,
+                    0xfd15_070a_510a_0001u128 << 64 | 5,
+                    0xfc15_070a_510b_0000u128 << 64 | 5,
+                ]);
+                format!("6:{a:x}:{port}:0")
+            }
+            _ => format!("4:{:x}:{port}", lo4(rng)),
+        };
+        let src = match rng.below(10) {
+            0 => format!("4:{:x}", lo4(rng)),
+            1 => {
+                let v4: Vec<&Cfg> = cfgs.iter().filter(|c| !c.v6).collect();
+                if v4.is_empty() { "-".into() } else { format!("4:{:x}", rng.pick(&v4).addr as u32) }
+            }
+            2 => "6:1".into(),
+            3 => {
+                let cs: Vec<u64> = gets.iter().filter(|g| g.0 == 'c').map(|g| g.1).collect();
+                if cs.is_empty() { format!("mc{}", rng.below(8)) } else { format!("mc{}", rng.pick(&cs)) }
+            }
+            4 if rng.chance(1, 2) => format!("uc{:x}", rng.next_u64()),
+            _ => "-".into(),
+        };
+        sends.push(format!("{}/{dst}/{src}", closed as u8));
+    }
+    let kind = if rng.chance(1, 8) { 'Q' } else { 'O' };
+    format!(
+        "{kind} {cfgs_raw} | {customs_raw} | {} | {} | {} | {}",
+        if relays.is_empty() { "-".into() } else { relays.iter().map(|r| r.to_string()).collect::<Vec<_>>().join(",") },
+        if inbox.is_empty() { "-".into() } else { inbox.iter().map(|(k, b)| format!("{k}:{b}")).collect::<Vec<_>>().join(",") },
+        if gets.is_empty() { "-".into() } else { gets.iter().map(|(k, n)| format!("{k}{n}")).collect::<Vec<_>>().join(",") },
+        sends.join(" ")
+    )
+}
+
+fn kind_no(c: char) -> u8 {
+    match c { 'e' => 0, 'r' => 1, _ => 2 }
+}
+
+fn subnet_octets(kind: u8, host: u64) -> [u8; 16] {
+    let mut o = [0u8; 16];
+    o[..6].copy_from_slice(&[0xfd, 0x15, 0x07, 0x0a, 0x51, 0x0b]);
+    o[6..8].copy_from_slice(match kind { 0 => &[0, 0], 1 => &[0, 1], _ => &[0, 3] });
+    o[8..].copy_from_slice(&host.to_be_bytes());
+    o
+}
+
+fn coq_sa(sa: &SocketAddr) -> String {
+    match sa {
+        SocketAddr::V4(a) => format!("(C18.SV4 {} {})", u32::from(*a.ip()), a.port()),
+        SocketAddr::V6(a) => format!(
+            "(C18.SV6 {} {} {} {})",
+            coq_hex(&a.ip().octets()),
+            a.port(),
+            a.flowinfo(),
+            a.scope_id()
+        ),
+    }
+}
+
+fn coq_srcip(s: &Option<IpAddr>) -> String {
+    coq_opt(s.as_ref(), |s| match s {
+        IpAddr::V4(a) => format!("(C19.S4 {})", u32::from(*a)),
+        IpAddr::V6(a) => format!("(C19.S6 {})", coq_hex(&a.octets())),
+    })
+}
+
+fn coq_dst_of_sa(sa: &SocketAddr) -> String {
+    match sa {
+        SocketAddr::V4(a) => format!("(C19.D4 {})", u32::from(*a.ip())),
+        SocketAddr::V6(a) => format!("(C19.D6 {} {})", u128::from(*a.ip()), a.scope_id()),
+    }
+}
+
+fn run_outer(rest: &str, rt: &tokio::runtime::Runtime, simple: bool) -> (String, String) {
+    use hk::outer::{NOKEY, Outer, PathObs};
+    let parts: Vec<&str> = rest.split('|').map(|s| s.trim()).collect();
+    let cfgs: Vec<Cfg> = if parts[0] == "-" { vec![] } else { parts[0].split(';').map(cfg_parse).collect() };
+    let customs: Vec<(Vec<u64>, u8)> = if parts[1] == "-" {
+        vec![]
+    } else {
+        parts[1]
+            .split(';')
+            .map(|c| {
+                let (ids, b) = c.split_once(':').unwrap();
+                (
+                    ids.split(',').filter(|s| !s.is_empty()).map(|s| s.parse().unwrap()).collect(),
+                    b.parse().unwrap(),
+                )
+            })
+            .collect()
+    };
+    let relays: Vec<u8> = if parts[2] == "-" { vec![] } else { parts[2].split(',').map(|s| s.parse().unwrap()).collect() };
+    let inbox: Vec<(u64, u8)> = if parts[3] == "-" {
+        vec![]
+    } else {
+        parts[3]
+            .split(',')
+            .map(|s| {
+                let (k, b) = s.split_once(':').unwrap();
+                (k.parse().unwrap(), b.parse().unwrap())
+            })
+            .collect()
+    };
+    let gets: Vec<(u8, u64)> = if parts[4] == "-" {
+        vec![]
+    } else {
+        parts[4].split(',').map(|s| (kind_no(s.chars().next().unwrap()), s[1..].parse().unwrap())).collect()
+    };
+    let sends: Vec<&str> = parts[5].split_whitespace().collect();
+    let flags: Vec<bool> = cfgs.iter().map(bindable).collect();
+    let coq_rs = coq_list(cfgs.iter().enumerate(), |(i, c)| {
+        format!("(C19.mkReq {} {} {})", coq_sock(c, i), coq_bool(c.required), coq_bool(flags[i]))
+    });
+    let coq_customs =
+        coq_list(customs.iter(), |(ids, b)| format!("({}, {b})", coq_list(ids.iter(), |i| i.to_string())));
+    let _guard = rt.enter();
+    let mut seed = rest.bytes().fold(11u64, |h, b| h.wrapping_mul(1099511628211) ^ b as u64);
+    for _attempt in 0..8 {
+        let base = 30000 + (seed % 20000) as u16;
+        seed = seed.wrapping_mul(6364136223846793005).wrapping_add(1442695040888963407);
+        let hcfgs: Vec<hk::Cfg> = cfgs
+            .iter()
+            .enumerate()
+            .map(|(i, c)| hk::Cfg {
+                v6: c.v6,
+                addr: c.addr,
+                prefix: c.prefix,
+                scope: c.scope,
+                port: base + i as u16,
+                is_required: c.required,
+                is_default: c.default,
+            })
+            .collect();
+        let sid = |port: u16| (port - base) as usize;
+        let (mut outer, (l4, d4, l6, d6)) = match Outer::new(&hcfgs, &relays, &customs, &inbox) {
+            Err((kind, msg)) => {
+                if msg.contains("in use") {
+                    continue;
+                }
+                let e = if kind == 1 { if msg.contains("IPv4") { 1 } else { 2 } } else { 3 };
+                let coq_in = format!(
+                    "(C19.IOut {coq_rs} {coq_customs} {} {} [] [])",
+                    coq_list(relays.iter(), |r| r.to_string()),
+                    coq_list(inbox.iter(), |(k, b)| format!("({k}, {b})")),
+                );
+                return (coq_in, format!("(C19.OBindErr {e})"));
+            }
+            Ok(x) => x,
+        };
+        // fill the real maps; the op list replays the draws the real generator made
+        let mut got: std::collections::HashMap<(u8, u64), SocketAddr> = Default::default();
+        let mut ops = Vec::new();
+        for (kind, key) in &gets {
+            let sa = outer.get(*kind, *key);
+            let SocketAddr::V6(a) = sa else { panic!("mapped addresses are IPv6") };
+            let o = a.ip().octets();
+            got.insert((*kind, *key), sa);
+            ops.push(format!(
+                "(C18.OpGet {} {key} [{}])",
+                ["C18.KMixed", "C18.KRelay", "C18.KCustom"][*kind as usize],
+                coq_hex(&o[8..])
+            ));
+        }
+        let mapped = |kind: u8, key: u64| -> Ipv6Addr {
+            match got.get(&(kind, key)) {
+                Some(SocketAddr::V6(a)) => *a.ip(),
+                _ => Ipv6Addr::from(subnet_octets(kind, key)),
+            }
+        };
+        let mut coq_sends = Vec::new();
+        let mut coq_obs = Vec::new();
+        let mut first: Option<(String, String)> = None;
+        for s in &sends {
+            let p: Vec<&str> = s.split('/').collect();
+            let closed = p[0] == "1";
+            let d: Vec<&str> = p[1].split(':').collect();
+            let dest: SocketAddr = if let Some(r) = d[0].strip_prefix('m') {
+                let kind = kind_no(r.chars().next().unwrap());
+                let ip = mapped(kind, r[1..].parse().unwrap());
+                SocketAddr::V6(SocketAddrV6::new(ip, d[1].parse().unwrap(), 0, d[2].parse().unwrap()))
+            } else if let Some(r) = d[0].strip_prefix('u') {
+                let kind = kind_no(r.chars().next().unwrap());
+                let ip = Ipv6Addr::from(subnet_octets(kind, u64::from_str_radix(&r[1..], 16).unwrap()));
+                SocketAddr::V6(SocketAddrV6::new(ip, d[1].parse().unwrap(), 0, d[2].parse().unwrap()))
+            } else if d[0] == "4" {
+                SocketAddr::V4(SocketAddrV4::new(
+                    Ipv4Addr::from(u32::from_str_radix(d[1], 16).unwrap()),
+                    d[2].parse().unwrap(),
+                ))
+            } else {
+                SocketAddr::V6(SocketAddrV6::new(
+                    Ipv6Addr::from(u128::from_str_radix(d[1], 16).unwrap()),
+                    d[2].parse().unwrap(),
+                    0,
+                    d[3].parse().unwrap(),
+                ))
+            };
+            let src: Option<IpAddr> = if let Some(k) = p[2].strip_prefix("mc") {
+                Some(IpAddr::V6(mapped(2, k.parse().unwrap())))
+            } else if let Some(h) = p[2].strip_prefix("uc") {
+                Some(IpAddr::V6(Ipv6Addr::from(subnet_octets(2, u64::from_str_radix(h, 16).unwrap()))))
+            } else {
+                src_parse(p[2])
+            };
+            outer.set_closed(closed);
+            let ob = outer.send(dest, src);
+            // ---- what was observed, as model terms
+            let res = match (ob.res, ob.not_connected) {
+                (0, _) => 0,
+                (1, true) => 1,
+                (1, false) => 3,
+                _ => 2,
+            };
+            // at most one hand-off per datagram
+            let hand_offs = ob.remote_tried.len() + ob.paths.len();
+            let (h, dv) = if hand_offs > 1 {
+                ("(C19.HRemote 999999)".to_string(), "C19.DNone".to_string())
+            } else if ob.res == 1 {
+                ("C19.HFatal".to_string(), "C19.DNone".to_string())
+            } else if let Some(k) = ob.remote_tried.first() {
+                (format!("(C19.HRemote {})", if *k == NOKEY { 999999 } else { *k }),
+                 format!("(C19.DRemote {})", coq_bool(ob.remote.contains(k))))
+            } else if let Some(path) = ob.paths.first() {
+                match path {
+                    PathObs::Ip { remote, local } => (
+                        format!("(C19.HPath (C19.PIp {} {}))", coq_dst_of_sa(remote), coq_src(local)),
+                        match ob.chosen.first() {
+                            Some((port, dflt)) => format!("(C19.DIp (C19.SendOn {} {}))", sid(*port), coq_bool(*dflt)),
+                            None => "(C19.DIp C19.Blackhole)".into(),
+                        },
+                    ),
+                    PathObs::Relay(k) => (
+                        format!("(C19.HPath (C19.PRelay {}))", if *k == NOKEY { 999999 } else { *k }),
+                        // the item that arrived names the same relay key
+                        match ob.relay.first() {
+                            Some((i, k2)) if k2 == k && ob.relay.len() == 1 => format!("(C19.DRelay (Some {i}))"),
+                            Some(_) => "(C19.DRelay (Some 999999))".into(),
+                            None => "(C19.DRelay None)".into(),
+                        },
+                    ),
+                    PathObs::Custom { remote, local } => (
+                        format!(
+                            "(C19.HPath (C19.PCustom {} {}))",
+                            if *remote == NOKEY { 999999 } else { *remote },
+                            coq_opt(*local, |l| if l == NOKEY { "999999".into() } else { l.to_string() })
+                        ),
+                        // every polled custom sender was given exactly this remote / local
+                        if ob.custom.iter().all(|(_, r, l)| r == remote && l == local) {
+                            format!("(C19.DCustom {})", coq_list(ob.custom.iter(), |(i, _, _)| i.to_string()))
+                        } else {
+                            "(C19.DCustom [999999])".into()
+                        },
+                    ),
+                }
+            } else if !ob.chosen.is_empty() || !ob.custom.is_empty() || !ob.relay.is_empty() || !ob.remote.is_empty() {
+                ("(C19.HRemote 999999)".to_string(), "C19.DNone".to_string())
+            } else {
+                ("C19.HDropped".to_string(), "C19.DNone".to_string())
+            };
+            if first.is_none() {
+                first = Some((
+                    format!("{} {ops} {} {}", coq_bool(closed), coq_sa(&dest), coq_srcip(&src), ops = coq_list(ops.iter(), |o| o.clone())),
+                    h.clone(),
+                ));
+            }
+            coq_sends.push(format!("({}, {}, {})", coq_bool(closed), coq_sa(&dest), coq_srcip(&src)));
+            coq_obs.push(format!("({res}, {h}, {dv})"));
+        }
+        if simple {
+            let (i, h) = first.expect("at least one send");
+            return (format!("(C19.IOuter {i})"), format!("(C19.OOuter {h})"));
+        }
+        let coq_in = format!(
+            "(C19.IOut {coq_rs} {coq_customs} {} {} {} {})",
+            coq_list(relays.iter(), |r| r.to_string()),
+            coq_list(inbox.iter(), |(k, b)| format!("({k}, {b})")),
+            coq_list(ops.iter(), |o| o.clone()),
+            coq_list(coq_sends.iter(), |o| o.clone()),
+        );
+        return (
+            coq_in,
+            format!(
+                "(C19.OOut {} {} {} {} {})",
+                coq_list(l4.iter(), |p| sid(*p).to_string()),
+                coq_opt(d4, |i| i.to_string()),
+                coq_list(l6.iter(), |p| sid(*p).to_string()),
+                coq_opt(d6, |i| i.to_string()),
+                coq_list(coq_obs.iter(), |o| o.clone()),
+            ),
+        );
+    }
+    ("(C19.IOut [] [] [] [] [] [])".into(), "(C19.OBindErr 98)".into())
 }
 
 // ---------------------------------------------------------------- execution
@@ -489,6 +855,10 @@ fn main() {
         let raw = raw.trim();
         if let Some(rest) = raw.strip_prefix("V ") {
             run_valid(rest)
+        } else if let Some(rest) = raw.strip_prefix("O ") {
+            run_outer(rest, &rt, false)
+        } else if let Some(rest) = raw.strip_prefix("Q ") {
+            run_outer(rest, &rt, true)
         } else {
             run_bind(raw.strip_prefix("B ").expect("case kind"), &rt)
         }
